@@ -329,6 +329,8 @@ def write_replay(prop, rec):
 
 
 def write_evidence(prop, tier, level, coverage, wall, violations=0, assumptions=None):
+    if os.environ.get("VERIF_NO_EVIDENCE") == "1":      # --replay runs do not replace the evidence of the last check run
+        return None
     os.makedirs(EVIDENCE, exist_ok=True)
     ev = {
         "property_id": prop,
